@@ -226,6 +226,36 @@ for how in ('literal', 'macro'):
                                                       for i in range(npos)]) or 'True'))
 
 
+# ---- round 9: a named field takes the CURRENT register or variable of that name at every execution: the same format text is
+#      executed while no variable `Hue` exists (the register is printed), again after `assign Hue ..` (the variable), and again
+#      after the variable changed (what a field refers to must not be remembered per format text)
+c = contract(VI, 'printf_named_field_over_time', serves=['C19', 'C17', 'C01'],
+             name="lemma:printf '{Hue}' ; assign Hue ; printf '{Hue}' ; assign Hue ; printf '{Hue}'", src='''
+def printf_named_field_over_time(self, x, y):
+    from bardolph.vm.instruction import Instruction
+    from bardolph.vm.vm_codes import OpCode
+    inst = Instruction(OpCode.OUT, IoOp.PRINTF, 'h={Hue};')
+    self.out(inst)
+    self._call_stack.put_variable('Hue', x)
+    self.out(inst)
+    self._call_stack.put_variable('Hue', y)
+    self.out(Instruction(OpCode.OUT, IoOp.PRINTF, 'h={Hue};'))
+''')
+def _setup(b, case):
+    from pyvc.values import Opaque
+    m = lib.machine(b, 'LOGICAL', lib.light_set_with(b, {}))
+    reg = lib.sym_regs(b, m, 'int', ('hue',))
+    calls = b.ghost('Calls', PyList())
+    out = Opaque('output', {'out': lambda I_, o, a, k: calls.items.append((o, 'out', tuple(a)))})
+    out.native = {'kind': 'generic'}
+    lib.provide(b, b.module('bardolph.lib.i_lib').ns['Output'], out)
+    return {'self': m.attrs['_vm_io'], 'x': b.sym('int', 'x'), 'y': b.sym('int', 'y'), '_reg': reg}
+c.setup(_setup)
+c.crosscheck = False
+c.ensures('register-then-the-variable-as-it-is-now',
+          "len(ghost('Calls')) == 3 and ghost('Calls')[0][2][0] == 'h={Hue};'.format(Hue=_reg.hue) "
+          "and ghost('Calls')[1][2][0] == 'h={Hue};'.format(Hue=x) and ghost('Calls')[2][2][0] == 'h={Hue};'.format(Hue=y)")
+
 # ---- named printf fields: a variable is found under its exact (case-sensitive) name, also when the name resembles an
 #      internal register (Hue, power, result, name, pc ...); the ten documented register names give the register
 c = contract(VI, 'VmIo._printf', serves=['C19', 'C16'], unwrap=1, name="VmIo._printf['{Hue}|{power}|{result}|{hue}', variables named like registers]")
